@@ -86,7 +86,7 @@ CHECKS = {
         "number of decimals; k*step is nearest for EVERY integer j; sign/format shape), reflection over the regenerated descriptors (every stepped "
         "function has admissible parameters, the prescribed (decimals, step) pair and MAXVOL alone the 16.5 literal), and a theorem that a numeric "
         "assignment to any stepped attribute yields exactly one PUT carrying that text. The real helper and every stepped attribute are swept over "
-        "grid points, tie points and their +-3 ulp neighbours and compared with the model (vm_compute); also after the device has reported values for all stepped functions of the object (the receiver's state plays no part), and on threads whose `decimal` context (rounding mode, precision) has been changed (the interpreter's ambient state plays no part).",
+        "grid points, tie points and their +-3 ulp neighbours and compared with the model (vm_compute); also after the device has reported values for all stepped functions of the object (the receiver's state plays no part), and on threads whose `decimal` context (rounding mode, precision) has been changed (the interpreter's ambient state plays no part). Two threads writing the same stepped function of two objects at the same time, with every source line of ynca/function.py, converters.py and helpers.py a scheduling point, must each transmit the literal of their own value.",
         note=BASE_NOTE + "Modelled, not verified: CPython Fraction arithmetic, round(), str(int); the translator's AST reading of the to_str lambdas.",
         technique="Coq proof (lia/nia over Z) + reflection over generated descriptors + differential sweep",
         design_ref="6 (C11)",
